@@ -12,7 +12,7 @@ import logging
 import contextlib
 
 from pybufrkit.errors import PyBufrKitError
-from pybufrkit.coder import Coder, CoderState
+from pybufrkit.coder import Coder, CoderState, BITMAP_INDICATOR
 from pybufrkit.tables import TableGroupKey, TableGroupCacheManager
 from pybufrkit.descriptors import Descriptor
 
@@ -245,9 +245,15 @@ class TemplateCompiler(Coder):
 
     def process_bitmap_definition(self, state, bit_operator, descriptor):
         n_031031 = state.n_031031
+        was_indicator = state.bitmap_definition_state == BITMAP_INDICATOR
         super(TemplateCompiler, self).process_bitmap_definition(state, bit_operator, descriptor)
         if state.n_031031 == 0:
             state.add_statement(State031031Reset())
+        elif was_indicator and state.n_031031 == 1:
+            # A bitmap given as an explicit list of 031031: the new definition
+            # starts with its first bit
+            state.add_statement(State031031Reset())
+            state.add_statement(State031031Increment())
         elif state.n_031031 == n_031031 + 1:
             state.add_statement(State031031Increment())
         elif state.n_031031 == n_031031:
